@@ -160,6 +160,11 @@ func (lr *libRun) probeKB(li, ki int, when string, inst *ast.KnowledgeBase, mk m
 	name, ver := lr.ex.KBs[ki][0], lr.ex.KBs[ki][1]
 	where := fmt.Sprintf("%s: library %d, knowledge base %s:%s", when, li, name, ver)
 	lib := lr.libs[li]
+	defer func() {
+		if p := recover(); p != nil {
+			lr.violate("probe-panicked", fmt.Sprintf("%s: instantiating or storing the knowledge base panicked: %v", where, p))
+		}
+	}()
 	if inst == nil {
 		var err error
 		inst, err = lib.NewKnowledgeBaseInstance(name, ver)
@@ -186,6 +191,11 @@ func (lr *libRun) probeKB(li, ki int, when string, inst *ast.KnowledgeBase, mk m
 }
 
 func (lr *libRun) fetchExec(where string, inst *ast.KnowledgeBase, mk mKB, adopt map[string]MRule) {
+	defer func() {
+		if p := recover(); p != nil {
+			lr.violate("probe-panicked", fmt.Sprintf("%s: using the knowledge base panicked: %v", where, p))
+		}
+	}()
 	eng := &engine.GruleEngine{MaxCycle: 200}
 	f := probeFacts()
 	dc := ast.NewDataContext()
@@ -303,6 +313,20 @@ func RunLib(sc *core.Scenario) *LibResult {
 	lr.libs = []*ast.KnowledgeLibrary{ast.NewKnowledgeLibrary()}
 	lr.model = []map[int]mKB{{}}
 	for oi, op := range ex.Ops {
+		lr.step(oi, op)
+	}
+	return res
+}
+
+// step executes one operation; a panic that leaves a library call is a violation, not a crash.
+func (lr *libRun) step(oi int, op LOp) {
+	res, ex := lr.res, lr.ex
+	defer func() {
+		if p := recover(); p != nil {
+			lr.violate("operation-panicked", fmt.Sprintf("op %d (%s) panicked: %v", oi+1, op.Op, p))
+		}
+	}()
+	for once := true; once; once = false {
 		if op.Lib >= len(lr.libs) || op.KB >= len(ex.KBs) {
 			continue
 		}
@@ -503,5 +527,4 @@ func RunLib(sc *core.Scenario) *LibResult {
 		}
 		lr.probeAll(when, -1, -1, nil)
 	}
-	return res
 }
